@@ -11,14 +11,15 @@ from mc.rngseam import ScriptedGenerator
 class Lattice:
     """Finite table of log-densities on the points offset + k, k in prod(range(shape))."""
 
-    def __init__(self, shape, logp, offset=0.0):
+    def __init__(self, shape, logp, offset=0.0, spacing=1.0):
         self.shape = tuple(shape)
         self.d = len(self.shape)
         self.logp = np.asarray(logp, dtype=float).reshape(self.shape)
         self.offset = float(offset)
+        self.spacing = float(spacing)
 
     def index(self, theta):
-        k = np.asarray(theta, dtype=float).reshape(-1) - self.offset
+        k = (np.asarray(theta, dtype=float).reshape(-1) - self.offset) / self.spacing
         r = np.rint(k)
         if k.size != self.d or not np.all(np.abs(k - r) < 1e-6):
             return None
@@ -28,7 +29,7 @@ class Lattice:
         return idx
 
     def coords(self, idx):
-        return np.array([self.offset + i for i in idx], dtype=float)
+        return np.array([self.offset + self.spacing * i for i in idx], dtype=float)
 
     def value(self, theta):
         idx = self.index(theta)
@@ -128,16 +129,19 @@ def build_rw_chain(kind, post, start, sigma, T, limits, lat, directions=None):
 
     d = len(start)
     widths = np.full(d, float(sigma))
-    lo = np.array([lat.offset - 0.5] * d)
-    hi = np.array([lat.offset + n - 0.5 for n in lat.shape])
+    lo = np.array([lat.offset - 0.5 * lat.spacing] * d)
+    hi = np.array([lat.offset + (n - 0.5) * lat.spacing for n in lat.shape])
+    start_arr = np.array(start, dtype=float)
+    if getattr(lat, "int_start", False) and np.all(start_arr == np.rint(start_arr)):
+        start_arr = start_arr.astype(np.int64)  # a whole-number starting point written with an integer dtype
     if kind == "PcaChain":
         b = (lo, hi) if limits == "box" else None
-        chain = PcaChain(posterior=post, start=np.array(start, dtype=float), widths=widths, temperature=T, bounds=b, display_progress=False)
+        chain = PcaChain(posterior=post, start=start_arr, widths=widths, temperature=T, bounds=b, display_progress=False)
         if directions is not None:
             chain.directions = [np.array(v, dtype=float) for v in directions]
     else:
         cls = {"MetropolisChain": MetropolisChain, "GibbsChain": GibbsChain}[kind]
-        chain = cls(posterior=post, start=np.array(start, dtype=float), widths=widths, temperature=T, display_progress=False)
+        chain = cls(posterior=post, start=start_arr, widths=widths, temperature=T, display_progress=False)
         for i in range(d):
             if limits == "box":
                 chain.set_boundaries(i, (float(lo[i]), float(hi[i])))
